@@ -8,7 +8,7 @@
     are the committed batches whole and once each, replay to the stored tasks,
     and no working-set entry is duplicated.  That SQLite enforces the lock
     between threads and processes is a runtime fact, sampled by the check. *)
-From TC Require Import Model.TaskDb Model.Conc Model.Txn Proofs.ConcP Proofs.ConcDbP.
+From TC Require Import Model.TaskDb Model.Conc Model.Txn Proofs.ConcP Proofs.ConcDbP Proofs.ConcDb2P Proofs.WriteBackP.
 
 Theorem C17_serial_equivalence : forall (S C : Type) (step : S -> C -> S) s l,
   cpersist (crun step {| cpersist := s; cholder := None |} l)
@@ -37,8 +37,18 @@ Theorem C17_concurrent_commits : forall (status : N) (is_pr : N -> bool) (base :
   /\ unsynced s' = unsynced s ++ concat (concat (committed None l)).
 Proof. exact concurrent_commits. Qed.
 
+(** The same with working-set rebuilds among the committed calls (a rebuild is
+    given the listing of the tasks its transaction read): tasks = replay of the
+    recorded operations, no working-set entry twice, the working set in the
+    storage's normal form -- in every state reachable by any schedule. *)
+Theorem C17_concurrent_commits_and_rebuilds : forall (status : N) (is_pr : N -> bool) (base : db) (s : store) l,
+  db_inv2 base s ->
+  db_inv2 base (cpersist (crun (dstep status is_pr) {| cpersist := s; cholder := None |} l)).
+Proof. exact concurrent_commits_and_rebuilds. Qed.
+
 Print Assumptions C17_serial_equivalence.
 Print Assumptions C17_invariant_of_transactions.
 Print Assumptions C17_nothing_moves_under_a_held_lock.
 Print Assumptions C17_serial_is_single_handle.
 Print Assumptions C17_concurrent_commits.
+Print Assumptions C17_concurrent_commits_and_rebuilds.
